@@ -12,12 +12,12 @@ CHECKS = {
     "C02": (MC, "TLC trace validation: soundness of the dumped closed model w.r.t. the term-named stratified reference chase (Structure.tla) along the class correspondence Phi",
             "small-scope; closes whose reference chase exceeds the element budget are counted inconclusive", "3 C02"),
     "C03": (MC, "TLC trace validation of history families (same facts, reordered / interleaved closes / duplicates / re-close): every member equals the reference chase and is isomorphic to the first member",
-            "families keep element creation in a common prefix", "3 C03"),
+            "design: EqlogEval running the flat rules extracted from the generated module refines the chase; family members also create elements late (per type in the same order)", "3 C03"),
     "C04": (MC, "TLC trace validation: canonicity, query agreement and agreement of every physical index copy (dumped through an impl included next to the generated module) at every condition evaluation and return",
             "field classification by name pattern; unknown fields are a tool error", "3 C04"),
-    "C05": (MC, "TLC trace validation: every mutator event is checked against the API contract applied to the previously dumped state", "small models (<=6 ids per type)", "3 C05"),
+    "C05": (MC, "TLC trace validation: every mutator event is checked against the API contract applied to the previously dumped state; union-find: UnionFind.tla (transcribed parent forest with path halving refines the representative contract) generates every call sequence of the scope for replay on eqlog_runtime::Unification, validated by UFTrace", "small models (<=6 ids per type); union-find on 3 elements x 5 calls exhaustively, 12 elements randomly", "3 C05"),
     "C06": (MC, "TLC trace validation on `!`-free theories: no id allocated and no class added between close_begin and any later observation; driver bound on condition evaluations; EqlogEval liveness run (design)", "termination is checked up to the driver's bound", "3 C06"),
-    "C07": (MC, "TLC trace validation of close_until families: soundness at every observation point, return-value contract, resumed histories isomorphic to the direct close", "stop plans enumerate the first evaluations only", "3 C07"),
+    "C07": (MC, "TLC trace validation of close_until families: soundness at every observation point, return-value contract, resumed histories isomorphic to the direct close", "stop plans enumerate the first evaluations only; resumption by close(), by further close_until calls and after an equality in both argument orders", "3 C07"),
     "C08": (MC, "TLC model checking of the container contract (PrefixTree.tla) + every operation sequence of the small scope and random sequences on arities 0..9 replayed on the real PrefixTreeN, traces validated by PrefixTreeTrace", "universe of 2-4 column values", "3 C08"),
     "C14": (MC, "TLC model checking of the transcribed weight-balanced tree algorithms (WBTreeAlg) and of the map contract (OrdMap) + replay of TLC-enumerated and random operation sequences on WBTreeMap, traces validated by OrdMapTrace (contract + balance on the observed shape)", "hook verif_shape_json reports the physical tree", "3 C14"),
     "C18": (MC, "TLC enumerates all small graphs (Toposort.tla, transcribed Kahn checked against ValidOutput); each graph x new/old splits replayed on morphism_toposort, outputs validated by TopoTrace", "functional dom/cod tables", "3 C18"),
